@@ -72,7 +72,7 @@ CHECKS['C20'] = (OTHER, 'bounded call-history symbolic execution of the real Pan
     'Bounded verification over call histories (14 operations x 14 x 7 redefinitions on flat and cylindrical panels, thorough: all pairs and the w-only model): results depend on the definition only, each quantity can be requested first on a fresh object, caller arrays are not modified.',
     'History length <= 2 calls + 1 redefinition; eigen-solvers stubbed (the matrices passed are observed); OpenMP races and complete shells outside.',
     'DESIGN.md section 4 C20')
-_SHELL = ('complete-shell (ConeCyl) kernels are not encoded: the 47 conecyl extension modules are built around cimport-ed integrand callbacks, a function-pointer integrator, '
+_SHELL_UNUSED = ('complete-shell (ConeCyl) kernels are not encoded: the 47 conecyl extension modules are built around cimport-ed integrand callbacks, a function-pointer integrator, '
           'C structs and trigonometric bases, which the de-Cythoniser/oracle pair built here (polynomial Bardell bases, no cimport/struct/callback support, no exact trigonometric integrator) '
           'cannot execute; nothing about this property is decided, so nothing is claimed (DESIGN.md section 9.2)')
 CHECKS['C18'] = (OTHER, 'symbolic execution of the real ConeCyl object (_rebuild, exclude_dofs_matrix, calc_full_c, calc_fext, uvw) over de-Cythonised clpt commons kernels with trigonometric values as solver-canonicalised atoms; z3 qfnra-nlsat per entry; exact-rational replay',
@@ -80,11 +80,14 @@ CHECKS['C18'] = (OTHER, 'symbolic execution of the real ConeCyl object (_rebuild
     'Pressure and harmonic edge-load closed forms, Sanders/FSDT/iso models and the reduced solve are outside (stated in evidence); trig atoms per argument class with S^2+C^2=1.',
     'DESIGN.md section 9.2 / 4 C18')
 CHECKS['C16'] = (OTHER, 'symbolic execution from source of the *_linear.pyx kernels of 13 shell models and of the real ConeCyl._calc_linear_matrices (pi symbolic, trigonometric arguments canonicalised by the solver) ; relational identities per entry with z3 qfnra-nlsat; exact-rational replay plus an independent float replay on the compiled kernels',
-    'Bounded symbolic verification of the relational clauses: cone at zero angle = cylinder kernels (k0, kG0), kG0 split/homogeneity in (Fc,P,T), isotropic short-cuts = general models, written lower-triangle entries = mirror, laminate matrix independent of the number of evaluations; the energy-Hessian and PSD clauses are NOT decided (no exact trigonometric integrator) and are listed as outside in evidence.',
-    'Series orders (1,1,1)/(2,2,2), sections s <= 2; bcn Donnell modules not importable; four recorded findings in .pyx kernels (bc2 Donnell cone, fsdt Sanders bcn).',
+    'Bounded symbolic verification of the relational clauses: cone at zero angle = cylinder kernels (k0, kG0), kG0 split/homogeneity in (Fc,P,T), isotropic short-cuts = general models, written lower-triangle entries = mirror, laminate matrix independent of the number of evaluations, and the elastic edge-restraint part of k0 (through the real _calc_linear_matrices -> get_linear_matrices -> fk0edges with symbolic restraint values) = Hessian of the edge-spring energy of the package own displacement field (exact 4-node circumferential rule, n2 = 1); the energy-Hessian clause for the shell part of k0 and PSD are NOT decided (no exact meridional integrator) and are listed as outside in evidence.',
+    'Series orders (1,1,1)/(2,2,2)/(2,2,1)/(3,3,1), sections s <= 2; bcn Donnell modules not importable; four recorded findings in .pyx kernels (bc2 Donnell cone, fsdt Sanders bcn).',
     'DESIGN.md section 9.2 / 4 C16')
+CHECKS['C17'] = (OTHER, 'symbolic execution from source of calc_k0L / calc_kG / calc_kLL / calc_fint_0L_L0_LL and their integrand callbacks (cfk0L, cfkG, cfkLL, cffint, cfN, cfstrain_*) of 12 *_nonlinear.pyx modules at ONE symbolic integration point with a symbolic weight (integratev stubbed), and of the real ConeCyl._calc_NL_matrices / calc_fint; the tangent is compared entry by entry with the exact five-point stencil of the internal force (a cubic polynomial in the amplitudes) with z3 qfnra-nlsat; exact-rational replay and float replay of the same identity on the compiled kernels',
+    'Bounded symbolic verification at integrand level (hence for every grid and both rules): tangent k0L+k0L^T+kLL+kG = Jacobian of the non-linear internal force per entry, symmetry, fint(0)=0 and kT(0)=k0 for the perfect shell, arbitrary initial-imperfection slopes at the point, partitioned kTuu = d calc_fint/d(free amplitudes) through the real ConeCyl methods for every subset of prescribed amplitudes; chunking of integratev over 1..8 threads by bounded execution (enumeration, stated).',
+    'Series orders (2,2,1) and (3,2,2) (the non-linear series start at i=0, order 1 is vacuous); Donnell CLPT bc1-4 hold; every Sanders CLPT and first-order-shear model violates the identity (recorded findings with signatures, reproduced on the compiled kernels); resolution of the grids, OpenMP scheduling, iso_ and bcn non-linear modules outside.',
+    'DESIGN.md section 9.2 / 4 C17')
 NA = {
-    'C17': _SHELL,
     'C15': 'eigenvalue monotonicity/convergence for pencils of size 48..768 is not a bounded first-order query any installed solver can decide; the algebraic ingredients (exact Hessians, exact tables, nestedness) are decided under C02-C04 and C10 (DESIGN.md section 5)',
 }
 man = {
